@@ -343,11 +343,66 @@ class _Canon(ast.NodeTransformer):
             n = self.generic_visit(n)
             self._field_copies(n, counts)
             self._default_fills(n)
+            self._stored_copies(n)
             self._entry_aliases(n, counts)
             self._item_copies(n, counts)
             return n
         finally:
             stack.pop()
+
+    def _stored_copies(self, fn: ast.FunctionDef) -> None:
+        """`t = e` / `obj.attr = t` / ... t ...  is  `obj.attr = e` / ... obj.attr ...: a local that only names the value on its way into
+        a field, read afterwards while neither the object nor the field changes."""
+        def scan(block: list[ast.stmt]):
+            i = 0
+            while i < len(block):
+                st = block[i]
+                for fld in ("body", "orelse", "finalbody"):
+                    b = getattr(st, fld, None)
+                    if isinstance(b, list) and b and isinstance(b[0], ast.stmt):
+                        scan(b)
+                if isinstance(st, ast.Try):
+                    for h in st.handlers:
+                        scan(h.body)
+                nxt = block[i + 1] if i + 1 < len(block) else None
+                if isinstance(st, ast.Assign) and len(st.targets) == 1 and isinstance(st.targets[0], ast.Name) and isinstance(nxt, ast.Assign) \
+                        and len(nxt.targets) == 1 and isinstance(nxt.targets[0], ast.Attribute) and isinstance(nxt.targets[0].value, ast.Name) \
+                        and isinstance(nxt.value, ast.Name) and nxt.value.id == st.targets[0].id and nxt.targets[0].value.id != st.targets[0].id \
+                        and nxt.targets[0].attr not in self.__dict__.get("_props", set()):
+                    name, owner, attr = st.targets[0].id, nxt.targets[0].value.id, nxt.targets[0].attr
+                    total = self._loads_of_binding(fn, st)
+                    if 1 <= total <= 40:
+                        seen, j, ok = 1, i + 2, True           # the store itself is one read
+                        while j < len(block) and seen < total and ok:
+                            cur = block[j]
+                            seen += sum(1 for x in ast.walk(cur) if isinstance(x, ast.Name) and x.id == name and isinstance(x.ctx, ast.Load))
+                            for x in ast.walk(cur):
+                                if isinstance(x, ast.Name) and x.id in (owner, name) and isinstance(x.ctx, (ast.Store, ast.Del)):
+                                    ok = False
+                                if isinstance(x, ast.Attribute) and isinstance(x.ctx, (ast.Store, ast.Del)) and x.attr == attr:
+                                    ok = False
+                                if isinstance(x, ast.Call) and ((isinstance(x.func, ast.Attribute) and isinstance(x.func.value, ast.Name) and x.func.value.id == owner)
+                                                                or any(isinstance(a, ast.Name) and a.id == owner for a in list(x.args) + [k.value for k in x.keywords])):
+                                    # the object handed on (`out.append(msg)`) is fine once every read of the local is behind us
+                                    if seen < total or any(isinstance(y, ast.Name) and y.id == name for y in ast.walk(cur)):
+                                        ok = ok and not (isinstance(x.func, ast.Attribute) and isinstance(x.func.value, ast.Name) and x.func.value.id == owner)
+                                        ok = ok and x.func.attr in ("append", "add") if isinstance(x.func, ast.Attribute) else False
+                                if isinstance(x, (ast.For, ast.While)) and any(isinstance(y, ast.Name) and y.id == name for y in ast.walk(x)):
+                                    ok = False
+                            j += 1
+                        if ok and seen == total:
+                            class _S(ast.NodeTransformer):
+                                def visit_Name(self2, x):
+                                    if x.id == name and isinstance(x.ctx, ast.Load):
+                                        return ast.copy_location(ast.Attribute(value=ast.Name(id=owner, ctx=ast.Load()), attr=attr, ctx=ast.Load()), x)
+                                    return x
+                            for cur in block[i + 2:j]:
+                                _S().visit(cur)
+                            nxt.value = st.value
+                            del block[i]
+                            continue
+                i += 1
+        scan(fn.body)
 
     def _default_fills(self, fn: ast.FunctionDef) -> None:
         """`e = D if p is None else p` (as the if / else it abbreviates) is the default fill `if p is None: p = D` with `e` read as `p`,
@@ -592,6 +647,22 @@ class _Canon(ast.NodeTransformer):
                 i += 1
         scan(fn.body)
 
+    _PURE_CALLS = {"int", "float", "len", "min", "max", "round", "abs", "sorted", "list", "tuple", "set", "dict", "str", "bool", "sum", "next", "any", "all", "enumerate", "zip", "range", "reversed", "isinstance", "getattr"}
+
+    def _pure_value(self, e: ast.AST) -> bool:
+        """No effect other than building a value: constructors (capitalised names), a few builtins, arithmetic, attribute reads."""
+        for x in ast.walk(e):
+            if isinstance(x, ast.Call):
+                f = x.func
+                nm = f.id if isinstance(f, ast.Name) else None
+                if nm is None or not (nm in self._PURE_CALLS or nm[:1].isupper()):
+                    return False
+                if nm == "next" and not (x.args and isinstance(x.args[0], ast.GeneratorExp)):
+                    return False                       # taking from a shared iterator is an effect
+            if isinstance(x, (ast.Yield, ast.YieldFrom, ast.Await, ast.NamedExpr, ast.Lambda)):
+                return False
+        return True
+
     def _single_use_temp(self, name: str, test: ast.AST) -> bool:
         stack = self.__dict__.get("_fn_stack") or []
         if not stack:
@@ -651,6 +722,19 @@ class _Canon(ast.NodeTransformer):
                         for x in ast.walk(nxt):
                             if isinstance(x, ast.Name) and x.id == name and isinstance(x.ctx, ast.Load):
                                 x.id = repl
+                        i += 1
+                        continue
+                    # a value built into a temporary that the next statement uses once, as an argument of its own call
+                    # (`pad = Message(..)` / `xs.append(pad)`): building it is the only effect, whichever side of the method look-up it is on
+                    if isinstance(st, ast.Assign) and len(st.targets) == 1 and isinstance(st.targets[0], ast.Name) and self._pure_value(st.value) \
+                            and isinstance(nxt, ast.Expr) and isinstance(nxt.value, ast.Call) and self._single_use_temp(st.targets[0].id, nxt) \
+                            and any(isinstance(a, ast.Name) and a.id == st.targets[0].id for a in list(nxt.value.args) + [k.value for k in nxt.value.keywords]) \
+                            and not any(isinstance(x, ast.Name) and isinstance(x.ctx, ast.Store) for x in ast.walk(nxt)):
+                        name = st.targets[0].id
+                        nxt.value.args = [ast.copy_location(st.value, a) if isinstance(a, ast.Name) and a.id == name else a for a in nxt.value.args]
+                        for k in nxt.value.keywords:
+                            if isinstance(k.value, ast.Name) and k.value.id == name:
+                                k.value = st.value
                         i += 1
                         continue
                     # `r = self.abs` read once, as the receiver of the call that the next statement makes first: the receiver is
